@@ -41,6 +41,9 @@ var failClasses = []failClass{
 	{"unknown-block", `{{ yield zzNope() }}`, true, true},
 	{"unknown-template:include", `{{ include "/zz/nope.jet" }}`, true, true},
 	{"unknown-template:exec", `{{ exec("/zz/nope.jet") }}`, true, true},
+	// one include statement evaluated twice: a template that exists, then a name that leads nowhere
+	{"unknown-template:include-computed:after-a-known-one", `{{ range _, nm := slice("/zinc.jet", "/zz/nope.jet") }}{{ include nm }}{{ end }}`, true, false},
+	{"unknown-template:exec-computed:after-a-known-one", `{{ range _, nm := slice("/zinc.jet", "/zz/nope.jet") }}{{ exec(nm) }}{{ end }}`, true, false},
 	{"index-kind", `{{ names["x"] }}`, true, true},
 	{"index-range", `{{ names[99] }}`, true, true},
 	{"index-negative", `{{ names[0 - 1] }}`, true, true},
